@@ -1,7 +1,6 @@
 package main
 
 func extractPause()       {}
-func extractStats()       {}
 func extractQueue()       {}
 func extractUrl()         {}
 func extractStages()      {}
